@@ -1114,7 +1114,9 @@ class MultiTestResult(TestResult):
     failfast = property(_get_failfast, _set_failfast)
 
     def _get_shouldStop(self):
-        return any(self._dispatch("__getattr__", "shouldStop"))
+        # Plain attribute access, so that each ExtendedToOriginalDecorator can
+        # answer for a wrapped result that has no shouldStop of its own.
+        return any(result.shouldStop for result in self._results)
 
     def _set_shouldStop(self, value):
         # Called because we subclass TestResult. Probably should not do that.
